@@ -12,7 +12,15 @@ func (s *Sim) galHist() string {
 	for _, st := range s.Steps {
 		steps = append(steps, st.gal())
 	}
-	return gal.Rec("h_cfg", s.w.galCfg(), "h_db", s.w.galDB(), "h_steps", gal.L(steps))
+	var secs []string
+	seen := map[string]bool{}
+	for _, x := range s.allSecrets() {
+		if x != "" && !seen[x] {
+			seen[x] = true
+			secs = append(secs, gal.S(x))
+		}
+	}
+	return gal.Rec("h_cfg", s.w.galCfg(), "h_db", s.w.galDB(), "h_secrets", gal.L(secs), "h_steps", gal.L(steps))
 }
 
 func (s *Sim) descr(extra map[string]any) any {
@@ -97,6 +105,7 @@ type histProfile struct {
 	FaultRate, AttackRate int
 	Stores                []string
 	Timeouts              [][2]int
+	Browsers              int // >1: several browsers take turns (and the attacker mixes what it saw from all of them)
 }
 
 func runHistories(c *Ctx, salt int64, p histProfile, each func(s *Sim) map[string]any) {
@@ -118,6 +127,9 @@ func runHistories(c *Ctx, salt int64, p histProfile, each func(s *Sim) map[strin
 		s := newSim(w, r)
 		n := p.MinLen + r.Intn(p.MaxLen-p.MinLen+1)
 		for len(s.Steps) < n {
+			if p.Browsers > 1 && r.Intn(3) == 0 {
+				s.SwitchBrowser(r.Intn(p.Browsers))
+			}
 			cls := s.RandomStep(p.FaultRate, p.AttackRate)
 			c.Hist("event_class", cls)
 		}
